@@ -2,7 +2,7 @@
 import core
 import scen_server
 
-PROPS = ['Props/C06.lean']
+PROPS = ['Props/C06.lean', 'Legacy/LedgerPinned.lean']
 PROP = 'C06'
 BIAS = ['capacity', 'capacity', '', 'abandon']
 
